@@ -7620,6 +7620,16 @@ func (c *BytecodeCompiler) compileInterpolatedSymbolLiteralNode(node *ast.Interp
 			c.emitValue(value.Ref(value.String(element.Value)), element.Location())
 		case *ast.StringInterpolationNode:
 			c.compileNodeWithResult(element.Expression)
+		case *ast.StringInspectInterpolationNode:
+			c.compileNodeWithResult(element.Expression)
+
+			c.compileCallMethod(
+				c.typeOf(element.Expression),
+				symbol.L_inspect,
+				0,
+				element.Location(),
+				false,
+			)
 		}
 	}
 
